@@ -167,6 +167,32 @@ PAIRS = [
 ]
 
 
+def nested_js_leg(rep, wd):
+    """demo_gen writes the JS bindings it demonstrates into `js/` by running the js backend itself: the settings of the `js` language
+    reach that nested run through the same three sources with the same precedence (Config.tla: file < command line < attribute)"""
+    refs = {v: tool("js", wd, SRC_TMPL % ("", ""), None, ["js.abi=" + v])["tree"] for v in ("spec", "legacy")}
+    if refs["spec"] == refs["legacy"]:
+        raise lib.ToolError("js.abi has no observable effect on the probe program")
+    n = 0
+    for fv, cv, av in [("spec", None, None), (None, "spec", None), (None, None, "spec"), ("legacy", "spec", None), ("spec", "legacy", None),
+                       ("spec", None, "legacy"), (None, "legacy", "spec"), ("legacy", "legacy", "spec"), (None, None, None)]:
+        eff = av or cv or fv or "legacy"
+        attrs = ("#[diplomat::config(js.abi = \"%s\")]\npub struct CfgHolder;\n" % av) if av else ""
+        res = tool("demo_gen", wd, SRC_TMPL % (attrs, ""), ("[js]\nabi = \"%s\"\n" % fv) if fv else None, (["js.abi=" + cv] if cv else []))
+        nested = {k[3:]: v for k, v in res["tree"].items() if k.startswith("js/")}
+        n += 1
+        if res["rc"] != 0 or not nested:
+            rep.violation({"family": "js.abi inside demo_gen", "what": "demo_gen produced no js/ output"}, {"stderr": res["stderr"][-400:]})
+            continue
+        got = "spec" if nested == refs["spec"] else ("legacy" if nested == refs["legacy"] else "other")
+        if got != eff:
+            rep.violation({"family": "js.abi inside demo_gen", "sources": {"file": fv, "cli": cv, "attr": av}},
+                          {"expected": eff, "observed": got})
+        rep.nontriv("nested js|%s|%s|%s" % (fv, cv, av))
+    rep.extra["nested_js_runs"] = n
+    return n
+
+
 def keys_leg(rep, tier, wd):
     """ConfigKeys.tla: assigning one key never changes another.  All 64 ways three sources can assign two different keys of one
     backend, both orders on the command line when it assigns both."""
@@ -299,6 +325,7 @@ def run(rep, tier):
                 if len(present) >= 2:
                     rep.nontriv("%s|%s|%s" % (fam.name, b, json.dumps(c["srcs"], sort_keys=True)))
     nruns += keys_leg(rep, tier, wd)
+    nruns += nested_js_leg(rep, wd)
     rep.evaluations += nruns
     rep.traces += nruns
     rep.sample({"case": cases[20], "family": "lib_name@kotlin"})
